@@ -36,6 +36,21 @@ CHECKS = {
         'stored zeros, both CSR constructors, several right-hand sides) and the residual of the real result is evaluated exactly.',
    note='Trusted: Coq kernel (axiom-free), hand model SparseLUDefs.v, unordered_map modelled as finite map, extraction (ExtrOcamlBasic+ExtrOcamlZBigInt). Known finding F4 listed in known_findings.txt.',
    design='5/C16'),
+ 'C08': dict(
+   technique='Coq proof (1-D transposition lemmas + tensor-product factorisation; direct case analysis for the 7-point extrapolated pair; convexity; midpoint characterisation of linear reproduction; refutation witness F3) + complete per-grid matrix correspondence',
+   text='For every odd nr >= 3 and ntheta = 2Mc (Mc >= 2) and all positive spacings: R is entrywise the transpose of P, Rex of Pex; '
+        'P has non-negative weights summing to one; injection after (extrapolated) prolongation is the identity; P reproduces '
+        'functions linear in r exactly where the fine node is the midpoint of its coarse neighbours (iff), and the unrestricted '
+        'claim is refuted by a witness (F3, known finding). Every operator, optimised and reference, is extracted as a full '
+        'matrix from the real code on random grid pairs and compared with the model rows in exact rationals.',
+   note='Trusted: Coq kernel; R axioms (sig_forall_dec, functional_extensionality_dep); hand model InterpDefs.v tied by K-matrix; extraction ExtrOcamlBasic+ExtrOcamlZBigInt. Linear reproduction in theta follows the same 1-D algebra and is evaluated on the implementation only.',
+   design='5/C08'),
+ 'C09': dict(
+   technique='Coq proof (field identities: 4-point Lagrange weights exact for cubics for all spacings; FMG rows: coarse identity, constants, fall-back location, cubic exactness in r) + complete per-grid matrix correspondence of applyFMGInterpolation',
+   text='Part (a), interpolation: proved for all positive spacings and all nr = 2M+1 (M >= 2). The real FMG matrix is extracted on random '
+        'pairs and compared with the model rows. Part (b), nested-iteration start-up: see evidence (covered by the cycle model when built).',
+   note='Trusted: Coq kernel; R axioms; hand model InterpDefs.v tied by K-matrix; extraction. Cubic exactness in theta is local (periodic unwrapping) and evaluated through the same lag4 lemma.',
+   design='5/C09'),
 }
 NA_REASON = 'check not built yet in this revision of /verif (design in DESIGN.md section 5); not claimed'
 
